@@ -1,6 +1,7 @@
 SPECIFICATION TSpec
 CONSTANTS
   Versions = {761}
+  FullVersions = {761}
   MaxLen = 0
   InPlaceProfile = FALSE
 INVARIANT Mark
